@@ -159,8 +159,10 @@ where
         + Visitable,
     N::EdgeWeight: Sub<Output = N::EdgeWeight> + PositiveMeasure,
 {
-    let mut edge_to = vec![None; network.node_count()];
-    let mut flows = vec![N::EdgeWeight::zero(); network.edge_count()];
+    // both vectors are indexed with `to_index`, which ranges over the node / edge
+    // bound (not the counts: a StableGraph may have vacant indices below its bounds)
+    let mut edge_to = vec![None; network.node_bound()];
+    let mut flows = vec![N::EdgeWeight::zero(); network.edge_bound()];
     let mut max_flow = N::EdgeWeight::zero();
     while has_augmented_path(&network, source, destination, &mut edge_to, &flows) {
         let mut path_flow = N::EdgeWeight::max();
